@@ -1,1 +1,71 @@
--- C08: property theorems (to be filled in)
+/-
+C08 — property theorems.
+
+Property: the generated package is the same, up to the numbering of generated names, whether the query arrives as a
+Python AST or as qastle text (a), whatever names its lambda parameters carry, shadowing included (b), wherever along
+the chain its MetaData calls are attached (c), and whether chained Select/Where steps are written separately or already
+fused (d).
+-/
+import FaxVerif.C08.Proofs
+namespace FaxVerif.C08
+
+/-! ## (b) bound names -/
+
+/-- **C08.alpha** — α-equivalence (defined on named terms by pairing binders) is exactly equality of the de Bruijn
+forms: two queries differ only in the names of their lambda parameters — inner parameters re-using (shadowing) the name
+of an outer one included — iff `resolve` maps them to the same term.  So everything downstream that is a function of
+`resolve q` is invariant under renaming, and nothing else is. -/
+theorem alpha (q q' : Q) : AlphaEq [] q q' ↔ resolve [] q = resolve [] q' := by
+  simpa using alpha_iff_resolve q q' []
+
+/-- the statement under binders: the paired binder names on each side are the two de Bruijn contexts -/
+theorem alpha_open (ctx : List (String × String)) (q q' : Q) :
+    AlphaEq ctx q q' ↔ resolve (ctx.map (·.1)) q = resolve (ctx.map (·.2)) q' :=
+  alpha_iff_resolve q q' ctx
+
+/-- **C08.lookup_innermost_first** — the translator's frame stack (`argument_stack`: `visit_Call_Lambda` pushes a
+frame and defines the parameters, `visit_Name`/`resolve_id` look a name up) finds the innermost binding: after
+pushing a frame that defines `x`, a lookup of `x` returns the new value whatever the outer frames say (shadowing),
+and a name the new frame does not define is looked up in the outer frames unchanged. -/
+theorem lookup_innermost_first {ρ} (st : Stack ρ) (ps : List String) (vals : List ρ) (x : String) :
+    (∀ v, Frame.get? (ps.zip vals) x = some v → Stack.lookup (ps.zip vals :: st) x = some v) ∧
+    (Frame.get? (ps.zip vals) x = none → Stack.lookup (ps.zip vals :: st) x = Stack.lookup st x) := by
+  constructor
+  · intro v h; simp [Stack.lookup, h]
+  · intro h; simp [Stack.lookup, h]
+
+/-- **C08.lookup_factors** — for every algebra of code-generating handlers (arbitrary state: cursor, emitted
+statements, counters for generated names), every frame stack and every query, the traversal that resolves names
+through the frame stack computes exactly what the traversal of the de Bruijn form computes in the flattened
+environment.  The names of lambda parameters reach the result only through `resolve`. -/
+theorem lookup_factors {ρ σ} (alg : Alg ρ σ) (st : Stack ρ) (q : Q) (s : σ) :
+    eval alg st q s = evalDB alg st.vals (resolve st.names q) s :=
+  eval_factors alg q st s
+
+/-- **C08.alpha_translate** — hence α-equivalent queries (shadowing included) are translated identically — same
+result, same final state, same error — by any translator of that shape, from the empty stack… -/
+theorem alpha_translate {ρ σ} (alg : Alg ρ σ) (q q' : Q) (s : σ) (h : AlphaEq [] q q') :
+    eval alg [] q s = eval alg [] q' s := by
+  have e := (alpha q q').1 h
+  rw [lookup_factors, lookup_factors]
+  simpa [Stack.names] using congrArg (fun d => evalDB alg (Stack.vals ([] : Stack ρ)) d s) e
+
+/-- … and from any two stacks that bind the same values under possibly different names. -/
+theorem alpha_translate_open {ρ σ} (alg : Alg ρ σ) (st st' : Stack ρ) (q q' : Q) (s : σ)
+    (hv : st.vals = st'.vals) (h : resolve st.names q = resolve st'.names q') :
+    eval alg st q s = eval alg st' q' s := by
+  rw [lookup_factors, lookup_factors, hv, h]
+
+/-- non-vacuity: an inner parameter that shadows the outer one (`e.Select(lambda e: e.pt())` inside `lambda e:`)
+is α-equivalent to the version with distinct names, and not to the one that refers to the outer parameter. -/
+example :
+    AlphaEq [] (.lam ["e"] (Q.call "Select" [.var "e", .lam ["e"] (.var "e")]))
+               (.lam ["x"] (Q.call "Select" [.var "x", .lam ["y"] (.var "y")])) := by
+  rw [alpha]; decide
+
+example :
+    ¬ AlphaEq [] (.lam ["e"] (Q.call "Select" [.var "e", .lam ["e"] (.var "e")]))
+                 (.lam ["x"] (Q.call "Select" [.var "x", .lam ["y"] (.var "x")])) := by
+  rw [alpha]; decide
+
+end FaxVerif.C08
